@@ -36,10 +36,17 @@ namespace c15
     static inline std::string show_bytes(const std::string &s)
     {
         std::string o;
-        for (unsigned char c : s)
+        for (size_t i = 0; i < s.size(); i++)
         {
-            char b[8];
-            if (c == 0x1b)
+            unsigned char c = (unsigned char)s[i];
+            char b[48];
+            if (c == 1 && i + 3 < s.size())
+            { // harness marker: re-initialisation with a new capacity / history depth
+                snprintf(b, sizeof b, "<REINIT cap=%u hist=%u>", (unsigned char)s[i + 1] | ((unsigned char)s[i + 2] << 8), (unsigned char)s[i + 3]);
+                o += b;
+                i += 3;
+            }
+            else if (c == 0x1b)
                 o += "<ESC>";
             else if (c == '\r')
                 o += "<CR>";
@@ -464,8 +471,10 @@ namespace c15
         Act prev = A_START;
         const char *last_nl = "none"; // what the reference did with the most recent CR/LF byte before the current one
         uint64_t steps = 0;
+        unsigned reinits = 0; // re-initialisations so far in this sequence
 
-        explicit Runner(const Cfg &c) : cfg(c), ref(c.cap, c.H), scr(c.width), pool((unsigned char *)malloc(8 + c.cap + 2)) {}
+        unsigned first_cap, first_H;
+        explicit Runner(const Cfg &c) : cfg(c), ref(c.cap, c.H), scr(c.width), pool((unsigned char *)malloc(8 + c.cap + 2)), first_cap(c.cap), first_H(c.H) {}
         ~Runner() { free(pool); }
         Runner(const Runner &) = delete;
 
@@ -539,7 +548,7 @@ namespace c15
         [[noreturn]] void bad(const char *monitor, Act a, bool cursor_mid, bool with_nl, const std::string &detail)
         {
             char key[vf::KEY_LEN];
-            snprintf(key, sizeof key, "%s:%s:%s%s%s%s", Term::impl(), monitor, ACT_NAME[a], cursor_mid ? ":cursor-mid" : "", with_nl ? ":last-newline-byte=" : "", with_nl ? last_nl : "");
+            snprintf(key, sizeof key, "%s:%s:%s%s%s%s%s", Term::impl(), monitor, ACT_NAME[a], cursor_mid ? ":cursor-mid" : "", with_nl ? ":last-newline-byte=" : "", with_nl ? last_nl : "", reinits ? ":after-reinit" : "");
             vf::fail(key, "%s | %s", witness().c_str(), detail.c_str());
         }
         void replay_output()
@@ -597,12 +606,56 @@ namespace c15
             prev = A_START;
             last_nl = "none";
             steps = 0;
+            reinits = 0;
+            if (cfg.cap != first_cap || cfg.H != first_H)
+            { // a previous sequence of this batch re-initialised with another configuration
+                cfg.cap = ref.cap = first_cap;
+                cfg.H = ref.H = first_H;
+                free(pool);
+                pool = (unsigned char *)malloc(8 + cfg.cap + 2);
+            }
             term.emplace(cfg, &sink);
             if (vf::verbose())
                 printf("  terminal case: impl=%s cap=%u hist=%u prompt=\"%s\" %s\n", Term::impl(), cfg.cap, cfg.H, cfg.prompt_text(), script.c_str());
             term->key(-1);
             check_bounds(A_START);
             check_screen(A_START, false);
+        }
+        // Re-initialisation of the same terminal object (vterm_automate_init / vtermxx::init -> readline init, history
+        // init, sline init) with another capacity and history depth, as an ordinary step of a key history.  The C
+        // adapter hands over new exactly sized line / history blocks and frees the old ones (a stale pointer is a
+        // use-after-free for ASan).  HEAD's init routines reset line, cursor, escape parser, newline pairing and browse
+        // index and zero the history, so the reference restarts empty with the new capacity and depth; the init routines
+        // also drop the callbacks and the prompt, which the adapter sets again.  The screen model restarts blank
+        // ("terminal reconnect": the init does not emit anything, the next newdata prints the prompt).
+        void reinit(unsigned ncap, unsigned nH)
+        {
+            char m[4] = {1, (char)(ncap & 0xff), (char)(ncap >> 8), (char)nH};
+            fed.append(m, 4);
+            if (vf::verbose())
+                printf("    re-init cap=%u hist=%u\n", ncap, nH);
+            reinits++;
+            cfg.cap = ncap;
+            cfg.H = nH;
+            term->reinit(cfg, &sink);
+            ref.cap = ncap;
+            ref.H = nH;
+            ref.reset();
+            sink.exec.clear();
+            scr.reset();
+            replayed = sink.out.size();
+            free(pool);
+            pool = (unsigned char *)malloc(8 + ncap + 2);
+            prev = A_START;
+            last_nl = "none";
+            check_bounds(A_START);
+            term->key(-1);
+            check_bounds(A_START);
+            if (term->len() != 0 || term->cursor() != 0)
+                bad("editor:line", A_START, false, false, "line not empty after re-initialisation");
+            check_screen(A_START, false);
+            check_accessors();
+            VF_OK("re-init: empty line, empty history, prompt shown again");
         }
         // feed one byte; with flush: newdata(-1) afterwards and evaluate the state/screen clauses
         void byte(unsigned char b, bool flush)
@@ -750,6 +803,48 @@ namespace c15
         vf::count_bulk(nsuf, nontrivial);
         VF_OK("exhaustive batch (one configuration and prefix, all continuations of 3 keys)");
     }
+    // Re-initialisation inside key histories: 12 first configurations x 12 second configurations (smaller, equal,
+    // larger capacity and depth) x every prefix of 2 keys over {A, 3, BS, UP, LEFT, CR, ^C, raw ESC} (line content,
+    // history entry, pending escape, pending newline half at the moment of the re-init) x every continuation of
+    // 3 (quick) / 4 (thorough) keys over {A, 3, BS, UP, DOWN, LEFT, DEL, CR, LF, raw ESC}.  One case = one
+    // (first, second, prefix) with all continuations.
+    static const Key RI_PRE[8] = {K_CH1, K_CH2, K_BS, K_UP, K_LEFT, K_CR, K_CTRLC, K_ESC};
+    static const Key RI_SUF[10] = {K_CH1, K_CH2, K_BS, K_UP, K_DOWN, K_LEFT, K_DEL, K_CR, K_LF, K_ESC};
+    static inline int ri_suflen() { return vf::thorough() ? 4 : 3; }
+    static inline uint64_t exhR_count() { return 12 * 12 * 64; }
+    template <class Term> static void exhR_run(uint64_t idx)
+    {
+        char tag[40];
+        snprintf(tag, sizeof tag, "%s:vterm-reinit", Term::impl());
+        vf::cls(tag);
+        unsigned c1 = idx % 12, c2 = (idx / 12) % 12, pre = (unsigned)(idx / 144);
+        Cfg cfg{CAPS[c1 % 4], HISTS[c1 / 4], nullptr};
+        unsigned ncap = CAPS[c2 % 4], nH = HISTS[c2 / 4];
+        int SL = ri_suflen();
+        uint64_t nsuf = ipow(10, SL);
+        Runner<Term> R(cfg);
+        for (uint64_t s = 0; s < nsuf; s++)
+        {
+            R.start();
+            bool ok = run_bytes(R, KEY_BYTES[RI_PRE[pre % 8]]) && run_bytes(R, KEY_BYTES[RI_PRE[pre / 8]]);
+            if (!ok)
+                continue;
+            R.reinit(ncap, nH);
+            uint64_t t = s;
+            for (int i = 0; i < SL; i++, t /= 10)
+                if (!run_bytes(R, KEY_BYTES[RI_SUF[t % 10]]))
+                    break;
+            if (s == 123 && c1 == 11 && c2 == 0 && pre == 8 && vf::want_sample())
+                vf::sample("re-init: %s", R.witness().c_str());
+        }
+        vf::count_bulk(nsuf, nsuf);
+        if (ncap < cfg.cap || ncap < R.first_cap)
+            VF_OK("re-init with a smaller capacity");
+        if (ncap > R.first_cap)
+            VF_OK("re-init with a larger capacity");
+        if (ncap == R.first_cap && nH == R.first_H)
+            VF_OK("re-init with the same capacity and depth");
+    }
     template <class Term> static void exhA_run(uint64_t idx) { exh_run<Term>(idx, K_NKEYS, lenA(), 12); }
     template <class Term> static void exhB_run(uint64_t idx) { exh_run<Term>(idx, K_ESC, 7, 12); }
 
@@ -808,6 +903,16 @@ namespace c15
                         }
                     }
                 }
+            }
+            if (r.chance(1, 40))
+            {
+                static const unsigned rcaps[] = {2, 3, 4, 5, 8, 16, 40};
+                static const unsigned rhs[] = {1, 2, 3, 5};
+                unsigned nc = r.pick(rcaps), nh = r.pick(rhs);
+                R.reinit(nc, nh);
+                all.append("\x01", 1);
+                all += (char)nc;
+                all += (char)nh;
             }
             bool cut = false;
             for (unsigned char b : bytes)
@@ -1040,10 +1145,13 @@ namespace c15
         S_LEFT,
         S_RIGHT,
         S_GETLINE,
+        S_REINIT_2,    // re-init (sline_init / igris::sline::init) with capacity 2
+        S_REINIT_SAME, // ... with the current capacity (C: sline_setbuf + sline_reset on a new block)
+        S_REINIT_BIG,  // ... with capacity + 3
         S_NOPS
     };
-    static const char *const SOP_NAME[S_NOPS] = {"putchar", "putchar", "newdata:fits", "newdata:fits", "newdata:exact-room", "newdata:over-room", "newdata:over-cap", "backspace", "backspace", "delete", "delete", "left", "right", "getline"};
-    static const char *const SOP_SHOW[S_NOPS] = {"put(a)", "put(b)", "new(1)", "new(2)", "new(room)", "new(room+1)", "new(cap+3)", "bs(1)", "bs(2)", "del(1)", "del(2)", "left", "right", "getline"};
+    static const char *const SOP_NAME[S_NOPS] = {"putchar", "putchar", "newdata:fits", "newdata:fits", "newdata:exact-room", "newdata:over-room", "newdata:over-cap", "backspace", "backspace", "delete", "delete", "left", "right", "getline", "reinit", "reinit", "reinit"};
+    static const char *const SOP_SHOW[S_NOPS] = {"put(a)", "put(b)", "new(1)", "new(2)", "new(room)", "new(room+1)", "new(cap+3)", "bs(1)", "bs(2)", "del(1)", "del(2)", "left", "right", "getline", "reinit(2)", "reinit(same)", "reinit(cap+3)"};
 
     template <class SL> struct SlineRunner
     {
@@ -1198,6 +1306,20 @@ namespace c15
                     cur++;
                 break;
             }
+            case S_REINIT_2:
+            case S_REINIT_SAME:
+            case S_REINIT_BIG:
+            {
+                // the same object gets another exactly sized buffer (the old one is freed); the reference restarts
+                // empty with the new capacity
+                unsigned ncap = o == S_REINIT_2 ? 2 : o == S_REINIT_SAME ? cap : cap + 3;
+                sl.reinit(ncap, o == S_REINIT_SAME);
+                cap = ncap;
+                line.clear();
+                cur = 0;
+                VF_OK("sline: re-init with another exact buffer");
+                break;
+            }
             case S_GETLINE:
             {
                 const char *p = sl.getline(); // writes the terminator at buf[len]: must be inside the exact buffer
@@ -1301,6 +1423,8 @@ namespace c15
                               "linecpy: min(len, size-1) characters + NUL inside the destination, return value",
                               "linecpy: destination size == line length",
                               "history accessor: k-th most recent entry == reference ring, terminated inside its slot",
+                              "re-init: empty line, empty history, prompt shown again", "re-init with a smaller capacity", "re-init with a larger capacity",
+                              "re-init with the same capacity and depth", "sline: re-init with another exact buffer",
                               "edit with >= 256 characters right of the cursor", "history recall with the cursor at column >= 256",
                               "exhaustive batch (one configuration and prefix, all continuations of 3 keys)"})
             vf::require(c);
